@@ -1,0 +1,8 @@
+//go:build !verif
+// +build !verif
+
+package streams
+
+// yield marks the point immediately before an atomic operation of the allocator. Without the
+// "verif" build tag it is empty (and inlined away).
+func yield(int) {}
